@@ -73,15 +73,31 @@ func funcKey(name, ret string, params [][2]string, withParams bool) string {
 }
 
 func plantedFuncKey(m *javagen.Method, withParams bool) string {
-	var ps [][2]string
-	for _, p := range m.Params {
-		ps = append(ps, [2]string{p.Type, p.Name})
-	}
+	return plantedFuncKeys(m, withParams)[0]
+}
+
+// plantedFuncKeys returns the acceptable keys of a planted function. A parameter written C-style (`int a[]`) may be
+// recorded with the type text left of the name or with the brackets appended: the statement's "(type, name)" does not
+// settle which, so both are accepted (the name must be the bare identifier either way).
+func plantedFuncKeys(m *javagen.Method, withParams bool) []string {
 	ret := m.Ret
 	if m.IsCtor {
 		ret = ""
 	}
-	return funcKey(m.Name, ret, ps, withParams)
+	var a, b [][2]string
+	cstyle := false
+	for _, p := range m.Params {
+		a = append(a, [2]string{p.Type, p.Name})
+		b = append(b, [2]string{p.Type + p.Dims, p.Name})
+		if p.Dims != "" {
+			cstyle = true
+		}
+	}
+	keys := []string{funcKey(m.Name, ret, a, withParams)}
+	if cstyle && withParams {
+		keys = append(keys, funcKey(m.Name, ret, b, withParams))
+	}
+	return keys
 }
 
 func multiset(xs []string) map[string]int {
@@ -187,7 +203,6 @@ func CheckDeclarations(p *javagen.Project, observed []ObsType, full bool, pathOf
 		sameLine := false
 		iface := f.Type.Kind == "Interface"
 		for _, m := range f.Type.Methods() {
-			wantF = append(wantF, plantedFuncKey(m, full))
 			if m.SameLineAsPrev {
 				sameLine = true
 			}
@@ -198,7 +213,30 @@ func CheckDeclarations(p *javagen.Project, observed []ObsType, full bool, pathOf
 			}
 			gotF = append(gotF, funcKey(fn.Name, fn.ReturnType, fn.Params, full))
 		}
-		if miss, extra := diffMultiset(multiset(wantF), multiset(gotF)); len(miss)+len(extra) > 0 {
+		gotSet := multiset(gotF)
+		var miss, extra []string
+		for _, m := range f.Type.Methods() {
+			found := false
+			for _, key := range plantedFuncKeys(m, full) {
+				if gotSet[key] > 0 {
+					gotSet[key]--
+					found = true
+					break
+				}
+			}
+			if !found {
+				miss = append(miss, plantedFuncKey(m, full))
+			}
+		}
+		for key, n := range gotSet {
+			if n > 0 {
+				extra = append(extra, fmt.Sprintf("%s x%d", key, n))
+			}
+		}
+		sort.Strings(miss)
+		sort.Strings(extra)
+		_ = wantF
+		if len(miss)+len(extra) > 0 {
 			sig := "functions"
 			switch {
 			case len(miss) > 0 && len(extra) == 0 && sameLine:
@@ -246,7 +284,10 @@ func CheckCallSites(p *javagen.Project, observed []ObsType) (ms []Mismatch, plan
 			if m.NoBody {
 				continue
 			}
-			fns := obsByKey[plantedFuncKey(m, true)]
+			var fns []ObsFunc
+			for _, key := range plantedFuncKeys(m, true) {
+				fns = append(fns, obsByKey[key]...)
+			}
 			if len(fns) != 1 {
 				continue // missing or ambiguous function entry: C01's business
 			}
